@@ -425,6 +425,9 @@ def gen_concurrent(rng):
         cfg["patterns"] = {"plain": ["XDROPX", "drop.me"]}
     if not cfg["keywords"]:
         cfg["keywords"] = ["ZEBRA", "uniq"]
+    if rng.random() < 0.5 and cfg["patterns"].get("plain"):
+        # a long exclusion list (what sites really configure); the entries that occur in the content come last
+        cfg["patterns"] = {"plain": ["NEVER-%d-OCCURS" % i for i in range(rng.randint(50, 300))] + list(cfg["patterns"]["plain"])}
     jobs = []
     base = rng.randint(0, 10 ** 6)
     for j in range(rng.randint(3, 8)):
@@ -463,9 +466,20 @@ def run_concurrent(spec, ctx, mechanism="output-differs-when-other-threads-use-t
         return orig_parse(self, line, **kw)
     pattern_mod.Pattern.parse_line = yielding
     sys.setswitchinterval(1e-6)
+    import threading
+    gate = threading.Barrier(min(spec["workers"], len(todo)))
+
+    def task(it):
+        k, (n, job) = it
+        if k < gate.parties:
+            try:
+                gate.wait(timeout=5)        # the first jobs reach the brand-new cleaner together
+            except threading.BrokenBarrierError:
+                pass
+        return (n, clean(shared, job))
     try:
         with ThreadPoolExecutor(max_workers=spec["workers"]) as pool:
-            results = list(pool.map(lambda t: (t[0], clean(shared, t[1])), todo))
+            results = list(pool.map(task, list(enumerate(todo))))
     finally:
         sys.setswitchinterval(old)
         pattern_mod.Pattern.parse_line = orig_parse
